@@ -112,6 +112,33 @@ def hmac_consts(ctx, rep, rule):
         rep.check(rule, nm.split(" as ")[0].lstrip("<") + "::has_auth", t == ("const", want_b), str(want_b), "has_auth returns %s" % flow.fmt(t), b.loc(), obligation=True)
 
 
+def _part_of(t):
+    """The term is cut out of something: an index by a range that is not provably the whole (`[..]`, `[..x.len()]` of the same
+    x), or one of the slice-splitting calls."""
+    def full_range(x, rng):
+        if rng[0] == "agg" and (rng[1] or "").endswith("RangeFull"):
+            return True
+        if rng[0] == "agg" and (rng[1] or "").endswith("RangeTo") and rng[3]:
+            e = rng[3][0][1]
+            while e[0] == "cast":
+                e = e[1]
+            if (e[0] == "call" and (e[1] or "").split("::")[-1] == "len" and e[2] and e[2][0] == x) or (e[0] == "un" and e[1] == "PtrMetadata" and e[2] == x):
+                return True
+        return False
+    for s_ in flow.subterms(t):
+        if s_[0] != "call":
+            continue
+        last = (s_[1] or "").split("::")[-1]
+        if last in ("index", "index_mut") and len(s_[2]) == 2:
+            rng = s_[2][1]
+            if rng[0] == "agg" and "Range" in (rng[1] or "") and not full_range(s_[2][0], rng):
+                return True
+        if last in ("split_at", "split_at_mut", "get", "get_mut", "first_chunk", "last_chunk", "split_first", "split_last", "take", "skip", "strip_prefix", "strip_suffix",
+                    "split_at_checked", "chunks", "chunks_exact"):
+            return True
+    return False
+
+
 def hmac_shape(ctx, rep, rule):
     """Canonical HMAC shape of DigestAuth::sign (tolerant) and sibling check of the key installers."""
     facts = ctx.facts
@@ -136,7 +163,7 @@ def hmac_shape(ctx, rep, rule):
                 flow.mentions(t, lambda s: s[0] == "agg" and s[1] == "std::ops::RangeTo")
         checks = [
             ("k1 = key ^ ipad", xor_key(args[0], "IPAD")), ("ipad rest", mask(args[1], "auth::digest::IPAD_MASK")),
-            ("whole message", args[2] == ("arg", 2) or fp(args[2]) == ("arg2",) or flow.mentions(args[2], lambda s: s == ("arg", 2))),
+            ("whole message", (args[2] == ("arg", 2) or fp(args[2]) == ("arg2",) or flow.mentions(args[2], lambda s: s == ("arg", 2))) and not _part_of(args[2])),
             ("k2 = key ^ opad", xor_key(args[3], "OPAD")), ("opad rest", mask(args[4], "auth::digest::OPAD_MASK")),
             ("inner digest", flow.mentions(args[5], lambda s: s[0] == "call" and (s[1] or "").endswith("Digest::finalize"))),
         ]
@@ -145,6 +172,11 @@ def hmac_shape(ctx, rep, rule):
             # none of the four pad pieces has the shape this rule knows (key xored in place into a pad block, a helper ...)
             rep.inconclusive(rule, key + "|pads", "the padded key blocks are built in a shape the rule does not follow", body.loc())
             checks = [c_ for c_ in checks if c_[0] in ("whole message", "inner digest")]
+        if _part_of(args[2]) and flow.mentions(args[2], lambda s: s[0] == "idx" and flow.mentions(s[1], lambda y: y == ("arg", 2))):
+            # the extent is re-derived from the octets of the message (its own BER header): whether that is the whole message
+            # depends on the arithmetic being right for every length form - not decided here
+            rep.inconclusive(rule, key + "|whole message", "the hashed extent is computed from the contents of the message (%s)" % flow.fmt(args[2])[:120], body.loc())
+            checks = [c_ for c_ in checks if c_[0] != "whole message"]
         for name, ok in checks:
             ai = {"k1 = key ^ ipad": 0, "ipad rest": 1, "whole message": 2, "k2 = key ^ opad": 3, "opad rest": 4, "inner digest": 5}[name]
             rep.check(rule, key + "|" + name, ok, name, "HMAC step `%s` is fed %s" % (name, flow.fmt(args[ai])[:200]), body.loc(), obligation=True)
@@ -1285,6 +1317,41 @@ def buffer_owner(ctx, rep, rule):
                           rs.loc(blk.term["line"]))
 
 
+def key_type_rejections(ctx, rep, rule):
+    """AuthKey::as_key_type refuses a key for its type bits and its size only.  The algorithm bits of the code play no part:
+    the session derives the *privacy* key through the authentication key object (`pk_auth.as_key_type(priv_alg, ..)`), so
+    the code it passes carries the privacy algorithm; a refusal decided by `alg & KT_ALG_MASK` turns every MD5+AES or
+    SHA-1+DES user away."""
+    facts = ctx.facts
+    body = facts.body("auth::AuthKey::as_key_type")
+    if body is None:
+        rep.missing(rule, "AuthKey::as_key_type")
+        return
+    rep.note_analysed("functions", [body.path])
+    prov = flow.Prov(body)
+    errs = flow.blocks_assigning_return(body, lambda rv: rv["k"] == "agg" and rv.get("vname") == "Err")
+    n = 0
+
+    def alg_outside_type_mask(t, masked=False):
+        if t == ("arg", 2):
+            return not masked
+        if t[0] == "bin" and t[1] == "BitAnd":
+            for a_, b_ in ((t[2], t[3]), (t[3], t[2])):
+                if b_[0] == "const" and isinstance(b_[1], int) and (b_[1] & 0x3f) == 0:
+                    return alg_outside_type_mask(a_, True)
+        if t[0] == "bin" and t[1] == "Shr" and t[3][0] == "const" and isinstance(t[3][1], int) and t[3][1] >= 6:
+            return alg_outside_type_mask(t[2], True)
+        return any(alg_outside_type_mask(x, masked) for x in t[1:] if isinstance(x, tuple) and x and isinstance(x[0], str)) or \
+            any(alg_outside_type_mask(y, masked) for x in t[1:] if isinstance(x, tuple) and x and isinstance(x[0], tuple) for y in x if isinstance(y, tuple) and y and isinstance(y[0], str))
+    for g, pol, tgt in flow.deciding_guards(body, prov, errs):
+        n += 1
+        key = "AuthKey::as_key_type|refusal decided by %s" % flow.fmt(g.term)[:60]
+        rep.check(rule, key, not alg_outside_type_mask(g.term), "type bits / key size", "a key is refused on the algorithm bits of the code (%s): the privacy key "
+                  "derivation passes the privacy algorithm's code to the authentication key object" % flow.fmt(g.term)[:100], body.loc(g.line), obligation=True)
+    if n < 2:
+        rep.inconclusive(rule, "AuthKey::as_key_type|refusals", "%d deciding guards found" % n, body.loc())
+
+
 def nested_lengths(ctx, rep, rule):
     """The length operand of every push_tag_len in an encoder is the size of what was pushed since a mark taken in the same
     function (buf.len() - start), a constant, or the length of the chunk just pushed; the bare buf.len() is allowed only for the
@@ -1322,8 +1389,9 @@ def nested_lengths(ctx, rep, rule):
                 rep.check(rule, key, body.path in top and last, "outermost SEQUENCE: buf.len() of a buffer that started empty",
                           "a nested element's length is taken from buf.len(): it is only right when the buffer held nothing before this element "
                           "(wrong under privacy, where the cipher's buffer already holds the padding)", body.loc(b.term["line"]), obligation=True)
-            elif flow.mentions(t0, lambda s_: s_[0] == "bin" and s_[1] in ("Add", "AddWithOverflow") and (s_[2][0] == "const" or s_[3][0] == "const")) and \
-                    flow.mentions(t0, lambda s_: s_[0] == "call" and (s_[1] or "").split("::")[-1] == "len" and not flow.mentions(s_, lambda x: x[0] == "call" and (x[1] or "").endswith("Buffer::len"))):
+            elif flow.mentions(t0, lambda s_: s_[0] == "bin" and s_[1] in ("Add", "AddWithOverflow") and
+                               any(x[0] == "const" and isinstance(x[1], int) and x[1] >= 1 for x in (s_[2], s_[3]))) and \
+                    flow.mentions(t0, lambda s_: s_[0] == "call" and (s_[1] or "").split("::")[-1] == "len"):
                 rep.violation(rule, key, "the length of a constructed element is computed as %s (contents length plus a constant header size) instead of being "
                               "measured as buf.len() - mark: it is wrong as soon as an inner element needs a long-form length" % flow.fmt(t0)[:100],
                               body.loc(b.term["line"]), obligation=True)
@@ -1725,7 +1793,38 @@ def usm_fields_raw(ctx, rep, rule):
                     cut = flow.mentions(ft, lambda x: x[0] == "call" and (x[1] or "").split("::")[-1] in
                                         ("index", "get", "split_at", "split_first", "split_last", "trim_ascii", "strip_prefix", "strip_suffix", "first_chunk", "last_chunk",
                                          "min", "truncate", "to_vec", "to_owned"))
-                    rep.check(rule, "UsmParameters::try_from|%s as decoded" % f, not cut and flow.mentions(ft, lambda x: x[0] == "call" and (x[1] or "").endswith("::from_ber")),
+                    def decoded(t, proj=()):
+                        # on every alternative the field is what a decoder returned: a field that is decoded on one path and
+                        # made up on another (an empty string for a sequence that ended early) is not the message's.  The
+                        # projections met on the way in (`.0.1.0` of the Continue payload) select the matching aggregate field.
+                        k = t[0]
+                        if k == "phi":
+                            return all(decoded(x, proj) for x in t[1])
+                        if k == "f":
+                            return decoded(t[1], (t[2],) + proj)
+                        if k == "dc":
+                            return decoded(t[1], proj)
+                        if k == "call":
+                            last = (t[1] or "").split("::")[-1]
+                            if (t[1] or "").endswith("::from_ber"):
+                                return True
+                            if last == "from_residual":
+                                return True      # the failure alternative: no message comes of it
+                            if last == "branch" and len(t[2]) == 1:
+                                return decoded(t[2][0], proj)
+                            return flow.mentions(t, lambda x: x[0] == "call" and (x[1] or "").endswith("::from_ber"))
+                        if k == "agg":
+                            if t[2] == "Err":
+                                return True
+                            if proj:
+                                for fn_, fv in t[3]:
+                                    if fn_ == proj[0]:
+                                        return decoded(fv, proj[1:])
+                            return flow.mentions(t, lambda x: x[0] == "call" and (x[1] or "").endswith("::from_ber"))
+                        if k in ("const", "promoted"):
+                            return False
+                        return True              # a cut-off trace (loop marker), an argument: not known to be made up
+                    rep.check(rule, "UsmParameters::try_from|%s as decoded" % f, not cut and decoded(ft),
                               "the decoded OCTET STRING, untouched", "%s is rewritten between the decoder and the message (%s): the session compares a "
                               "field the agent did not send" % (f, flow.fmt(ft)[:80]), body.loc(st_.get("line")), obligation=True)
     if n < 4:
